@@ -140,7 +140,7 @@ func c05Run(env *core.Env, idx int) core.CaseResult {
 	var res core.CaseResult
 	rng := core.Rng(env.Seed, "C05", idx)
 	o := gen.WorldOpts{NDocs: 1 + rng.Intn(4), Cyclic: true, Nested: true, Chains: rng.Intn(3) == 0, HostileNames: true, HTTP: rng.Intn(2) == 0,
-		Elements: 2 + rng.Intn(2), MaxDepth: 1 + rng.Intn(3), RefDensity: 0.35, Siblings: rng.Intn(3) == 0}
+		Elements: 2 + rng.Intn(2), MaxDepth: 1 + rng.Intn(3), RefDensity: 0.35, Siblings: rng.Intn(3) == 0, WholeDoc: rng.Intn(3) == 0}
 	w := gen.GenWorld(rng, o)
 	in := oworld(w)
 	res.Hash = core.HashOf(w.Docs)
@@ -152,6 +152,15 @@ func c05Run(env *core.Env, idx int) core.CaseResult {
 	var targets []c05Target
 	for _, d := range docs {
 		targets = append(targets, containedStates(in, d)...)
+	}
+	for _, d := range docs {
+		// a document that is one schema is designated as a whole by a reference without fragment
+		if dm, ok := in.Docs[d].(map[string]interface{}); ok {
+			if _, isSpec := dm["definitions"]; !isSpec && d != w.Root {
+				targets = append(targets, c05Target{oracle.State{Doc: d, Ptr: ""}, "schema"})
+				res.Count("whole-document-target", 1)
+			}
+		}
 	}
 	rng.Shuffle(len(targets), func(i, j int) { targets[i], targets[j] = targets[j], targets[i] })
 	if len(targets) > 60 {
